@@ -1,7 +1,7 @@
 (* C01 — merge: a call accepted by the merged signature is accepted by every input.
    Only statements, each closed by `exact <lemma>`; proofs live in Proofs/. *)
 From Sigtools.Model Require Import Base Bind Roles Algebra Universe.
-From Sigtools.Proofs Require Import SmallModel Basics SweepDefs Bounded.
+From Sigtools.Proofs Require Import SmallModel Basics SweepDefs Bounded MergeSound MergeSoundMixed.
 From Coq Require Import Lia.
 
 (* Small-model theorem for call shapes: acceptance of ANY call by ANY signature is
@@ -62,3 +62,44 @@ Print Assumptions C01_sound_triples_U1.
 Example C01_universe_nonempty : length U2ab = 220%nat /\ length U1ab = 52%nat.
 Proof. split; vm_compute; reflexivity. Qed.
 Print Assumptions C01_universe_nonempty.
+
+(* ---- soundness of merge for ALL signatures (Proofs/MergeSound*.v): pure-positional and pure-keyword calls
+   through the n-ary fold (also when an intermediate accumulator is not a valid signature) and through the
+   nested form; mixed calls for pairs under role consistency and non-collision, both conditions forced
+   (refutations) ---- *)
+Theorem C01_merge_sound_pos_kw : forall (ss : list sigT) (r : sigT) (c : call), Forall (fun s : sigT => valid_sig (params s) = true) ss -> merge ss = Ok r -> kws c = [] \/ npos c = 0%nat -> accepts (params r) c = true -> Forall (fun s : sigT => accepts (params s) c = true) ss.
+Proof. exact @MergeSound.merge_sound_pos_kw. Qed.
+Print Assumptions C01_merge_sound_pos_kw.
+
+Theorem C01_merge2_sound_pos_kw : forall (a b r : sigT) (c : call), valid_sig (params a) = true -> valid_sig (params b) = true -> merge [a; b] = Ok r -> kws c = [] \/ npos c = 0%nat -> accepts (params r) c = true -> accepts (params a) c = true /\ accepts (params b) c = true.
+Proof. exact @MergeSound.merge2_sound_pos_kw. Qed.
+Print Assumptions C01_merge2_sound_pos_kw.
+
+Theorem C01_merge_nested_sound_pos_kw : forall (ss : list sigT) (r : sigT) (c : call), Forall (fun s : sigT => valid_sig (params s) = true) ss -> merge_nested ss = Ok r -> kws c = [] \/ npos c = 0%nat -> accepts (params r) c = true -> Forall (fun s : sigT => accepts (params s) c = true) ss.
+Proof. exact @MergeSound.merge_nested_sound_pos_kw. Qed.
+Print Assumptions C01_merge_nested_sound_pos_kw.
+
+Theorem C01_merge_valid : forall (ss : list sigT) (r : sigT), Forall (fun s : sigT => valid_sig (params s) = true) ss -> merge ss = Ok r -> valid_sig (params r) = true.
+Proof. exact @MergeSound.merge_valid. Qed.
+Print Assumptions C01_merge_valid.
+
+Theorem C01_merge_sound_invalid_intermediate : let a := {| params := [{| pname := 2; pkind := PK; pdef := None; pann := None; puann := UEmpty |}; {| pname := 10; pkind := VK; pdef := None; pann := None; puann := UEmpty |}]; ret := None; uret := UEmpty; srcs := []; deps := [] |} in let b := {| params := [{| pname := 1; pkind := PK; pdef := None; pann := None; puann := UEmpty |}; {| pname := 2; pkind := KO; pdef := Some 1; pann := None; puann := UEmpty |}; {| pname := 10; pkind := VK; pdef := None; pann := None; puann := UEmpty |}]; ret := None; uret := UEmpty; srcs := []; deps := [] |} in let c := {| params := [{| pname := 3; pkind := PK; pdef := None; pann := None; puann := UEmpty |}]; ret := None; uret := UEmpty; srcs := []; deps := [] |} in Forall (fun s : sigT => valid_sig (params s) = true) [a; b; c] /\ (exists acc : sorted, merger (sort_params a) (sort_params b) = Ok acc /\ validate (flatten acc) = false) /\ (exists r : sigT, merge [a; b; c] = Ok r /\ params r = [{| pname := 2; pkind := PO; pdef := None; pann := None; puann := UEmpty |}] /\ accepts (params r) {| npos := 1; kws := [] |} = true).
+Proof. exact @MergeSound.merge_sound_invalid_intermediate. Qed.
+Print Assumptions C01_merge_sound_invalid_intermediate.
+
+Theorem C01_merge2_sound_mixed : forall (a b r : sigT) (c : call), valid_sig (params a) = true -> valid_sig (params b) = true -> role_consistent [params a; params b] = true -> merge [a; b] = Ok r -> noncolliding c (params r) [params a; params b] = true -> accepts (params r) c = true -> accepts (params a) c = true /\ accepts (params b) c = true.
+Proof. exact @MergeSoundMixed.merge2_sound_mixed. Qed.
+Print Assumptions C01_merge2_sound_mixed.
+
+Theorem C01_sound_pairs : forall (a b : list param) (r : sigT), valid_sig a = true -> valid_sig b = true -> merge [{| params := a; ret := None; uret := UEmpty; srcs := []; deps := [] |}; {| params := b; ret := None; uret := UEmpty; srcs := []; deps := [] |}] = Ok r -> (forall c : call, npos c = 0%nat \/ kws c = [] -> accepts (params r) c = true -> accepts a c = true /\ accepts b c = true) /\ (role_consistent [a; b] = true -> forall c : call, noncolliding c (params r) [a; b] = true -> accepts (params r) c = true -> accepts a c = true /\ accepts b c = true).
+Proof. exact @MergeSoundMixed.C01_sound_pairs. Qed.
+Print Assumptions C01_sound_pairs.
+
+Theorem C01_merge2_mixed_needs_role_consistency : let a := {| params := [{| pname := 1; pkind := PK; pdef := None; pann := None; puann := UEmpty |}; {| pname := 2; pkind := PK; pdef := None; pann := None; puann := UEmpty |}]; ret := None; uret := UEmpty; srcs := []; deps := [] |} in let b := {| params := [{| pname := 2; pkind := PK; pdef := None; pann := None; puann := UEmpty |}; {| pname := 9; pkind := VP; pdef := None; pann := None; puann := UEmpty |}; {| pname := 10; pkind := VK; pdef := None; pann := None; puann := UEmpty |}]; ret := None; uret := UEmpty; srcs := []; deps := [] |} in let c := {| npos := 1; kws := [2] |} in valid_sig (params a) = true /\ valid_sig (params b) = true /\ role_consistent [params a; params b] = false /\ (exists r : sigT, merge [a; b] = Ok r /\ noncolliding c (params r) [params a; params b] = true /\ accepts (params r) c = true /\ accepts (params b) c = false).
+Proof. exact @MergeSoundMixed.merge2_mixed_needs_role_consistency. Qed.
+Print Assumptions C01_merge2_mixed_needs_role_consistency.
+
+Theorem C01_merge2_mixed_needs_noncolliding : let a := {| params := [{| pname := 1; pkind := PK; pdef := None; pann := None; puann := UEmpty |}; {| pname := 10; pkind := VK; pdef := None; pann := None; puann := UEmpty |}]; ret := None; uret := UEmpty; srcs := []; deps := [] |} in let b := {| params := [{| pname := 2; pkind := PK; pdef := None; pann := None; puann := UEmpty |}; {| pname := 10; pkind := VK; pdef := None; pann := None; puann := UEmpty |}]; ret := None; uret := UEmpty; srcs := []; deps := [] |} in let c := {| npos := 1; kws := [2] |} in valid_sig (params a) = true /\ valid_sig (params b) = true /\ role_consistent [params a; params b] = true /\ (exists r : sigT, merge [a; b] = Ok r /\ noncolliding c (params r) [params a; params b] = false /\ accepts (params r) c = true /\ accepts (params b) c = false).
+Proof. exact @MergeSoundMixed.merge2_mixed_needs_noncolliding. Qed.
+Print Assumptions C01_merge2_mixed_needs_noncolliding.
+
